@@ -40,6 +40,8 @@ func runC12(p *core.Prog, r *core.Report) {
 	c05R6(p, r, "C12.R9")
 	transportRetryRule(p, r, "C12.R10")
 	c12R11(p, r)
+	// what is sent again must still be readable (shared with C05.R10)
+	readKeepsSourceRule(p, r, "C12.R12")
 }
 
 // c12R8: a body that ends early is recognised, and resumed with a Range request, only when the
